@@ -30,6 +30,8 @@ def diff_stmts(got, want):
         out.append((prop, 'statement lists differ: got %s want %s' % (kinds_g, kinds_w)))
         return out
     for g, w in zip(got, want):
+        isjoin = bool(w.get('_join'))
+        w = {k: v for k, v in w.items() if k != '_join'}
         if g == w:
             continue
         if g['stmt'] != w['stmt']:
@@ -41,7 +43,7 @@ def diff_stmts(got, want):
             g2 = dict(g, fks=None)
             w2 = dict(w, fks=None)
             if g2 != w2:
-                prop = 'C04' if w.get('_join') else 'C03'
+                prop = 'C04' if isjoin else 'C03'
                 keys = [k for k in g2 if g2[k] != w2.get(k)]
                 out.append((prop, 'table %s differs in %s: got %s want %s' % (g['name'], keys, {k: g2[k] for k in keys}, {k: w2.get(k) for k in keys})))
         else:
